@@ -17,8 +17,9 @@ COMMON_STUBS = [
     "fmt.Sprintf/debug.Stack: empty; errors.Is/As: identity / dynamic-type based, no unwrapping",
 ]
 
-def H(func, pkg="internal", params=None, max_paths=0, reach=None, bounds="", step_limit=0, timeout_s=0):
+def H(func, pkg="internal", params=None, max_paths=0, reach=None, bounds="", step_limit=0, timeout_s=0, solver=""):
     d = {"func": func, "pkg": pkg}
+    if solver: d["solver"] = solver
     if params: d["params"] = params
     if max_paths: d["max_paths"] = max_paths
     if reach: d["reach"] = reach
@@ -87,6 +88,28 @@ PROPS["C04"] = {
                  H("ZZ_C04_Resched", reach=["rescheduled"]), H("ZZ_C04_Deschedule", reach=["descheduled"]),
                  H("ZZ_C04_Slot3", params={"P0": 5}, reach=["advanced"]), H("ZZ_C04_Slot3", params={"P0": 63, "P1": 7}, reach=["advanced"]),
                  H("ZZ_C04_Jump", reach=["jumped"]), H("ZZ_C04_Jump", params={"K": 4194303}, reach=["jumped"])],
+}
+
+def _c07(M, capbits, climbM):
+    P = {"M": M, "CAPBITS": capbits}
+    b = "<=%d entries per region, capacity <= 2^%d, weights 1..capacity symbolic" % (M, capbits)
+    return [H("ZZ_C07_Base", reach=["constructed"], solver="cvc5", bounds="capacities 1,2,3,4,5,10,100,1000,2^20"),
+            H("ZZ_C07_Admit", reach=["admit-done"], solver="cvc5", bounds="arbitrary 64-word sketch table"),
+            H("ZZ_C07_Set", params=P, reach=["set-done"], solver="cvc5", bounds=b),
+            H("ZZ_C07_Access", params=P, reach=["access-done"], solver="cvc5", bounds=b),
+            H("ZZ_C07_Update", params=P, reach=["update-done"], solver="cvc5", bounds=b + ", new weight up to 2^60 (self-eviction above capacity)"),
+            H("ZZ_C07_Remove", params=P, reach=["remove-done"], solver="cvc5", bounds=b),
+            H("ZZ_C07_Climb", params={"M": climbM, "CAPBITS": capbits}, reach=["climb-done"], solver="cvc5", bounds="<=%d entries per region; float32 step/hr and sample counts symbolic; capacity <= 2^40" % climbM)]
+
+PROPS["C07"] = {
+    "title": "policy structure and bounds",
+    "technique": "SSA symbolic execution of TinyLfu.Set/Access/UpdateCost/Remove/climb/resizeWindow + SMT (cvc5, BV+FP): one-step induction from arbitrary small valid policy states",
+    "level_text": "Inductive bounded model checking of the real policy code: the pre-state is an arbitrary state satisfying the written-down representation invariant (region lists built with the real list code, symbolic weights, capacities, adaptive split, sample counters, float32 climber state); one real operation is executed and cvc5 decides, for all values, that the invariant, the capacity bound, capacity conservation, no unsigned wrap and exact eviction callbacks hold afterwards; an instruction budget turns non-terminating eviction into a violation. Shapes are bounded (entries per region), so this is bounded model checking, not a proof.",
+    "level_note": "Trusted: go/ssa, executor encoding (BV + IEEE float32 via the FloatingPoint theory), cvc5. Cuts (recorded): admit() is an arbitrary boolean in the step lemmas (its direction is checked separately on the real sketch), CountMinSketch.Add is skipped (C17). Set/Access lemmas assume the adaptive-resize trigger is off; climb+resizeWindow have their own lemma from the same invariant, so their composition is covered.",
+    "assumptions": ["invariant I (DESIGN.md §4 C07) as pre-state", "weights 1..capacity for resident entries", "admission outcome arbitrary (over-approximation)"],
+    "outside_bound": ["more than M entries per region (quick 1, thorough 2)", "capacity above 2^60 (2^40 for the climber lemma)"],
+    "quick": _c07(1, 60, 1),
+    "thorough": _c07(2, 32, 1),
 }
 
 NOT_APPLICABLE = [
